@@ -178,6 +178,16 @@ func evalPureStmtBlock(vm *r.VM, stmtBlock *syntax.StmtBlock) (r.Element, error)
 }
 
 func handleExceptionSignal(vm *r.VM, blockModule *r.Module, catchBlock []*syntax.CatchBlockPair, blockErr error) (r.Element, error) {
+	// runtime faults (division by zero, undefined name, index out of range...) and the
+	// exception a failed method call comes back with belong to the built-in class 异常 too
+	origErr := blockErr
+	switch e := blockErr.(type) {
+	case *zerr.RuntimeError:
+		blockErr = zerr.NewExceptionSignal(value.NewException(e.Error()))
+	case *value.Exception:
+		blockErr = zerr.NewExceptionSignal(e)
+	}
+
 	// try to find if the blockErr is an exception signal
 	exception, realErr := extractSignalValue(blockErr, zerr.SigTypeException)
 
@@ -220,7 +230,7 @@ func handleExceptionSignal(vm *r.VM, blockModule *r.Module, catchBlock []*syntax
 	}
 
 	// no handle block catches this error, then throw it anyway
-	return nil, blockErr
+	return nil, origErr
 }
 
 //// eval statements
